@@ -55,6 +55,9 @@ def mutations(lines):
     yield "H2", "\n" + "\n".join(L) + "\n"
     yield "H3.code", "int\tg_x;\n" + "\n".join(L) + "\n"
     yield "H3.directive", "#include <a.h>\n" + "\n".join(L) + "\n"
+    for kind, code in (("call", "ft_setup(1);"), ("cast", "(void)g_x;"), ("assign", "g_x = 1;"), ("proto", "int\tft_f(int n);"),
+                       ("typedef", "typedef int\tt_int;"), ("expr", "g_x++;"), ("semicolon", ";")):
+        yield f"H3.{kind}", code + "\n" + "\n".join(L) + "\n"
     yield "H4", "\n".join("//" + l[2:-2] for l in L) + "\n"
     yield "H5", "/*" + "\n".join([L[0][2:-2]] + [l[2:-2] for l in L[1:-1]] + [L[-1][2:-2]]) + "*/\n"
     for i in range(11):
@@ -134,6 +137,8 @@ KINDS = {
     "empty": "",
     "directive": "#define LIMIT 42",
     "code": "int\tg_x;",
+    "call": "ft_setup(1);",
+    "cast": "(void)g_x;",
 }
 NAMED_LINES = (0, 5, 7, 8, 10)     # frame, By, Created, Updated, frame (the property names these; a missing file-name field is not judged, DESIGN §9)
 
@@ -153,7 +158,7 @@ def sequences(maxdev):
                         judged = False     # a logo/blank row replaced by another comment: not named by the property
                     if p == 11 and kd == "empty":
                         judged = None      # identity
-                    if p == 12 and kd == "code":
+                    if p == 12 and kd in ("code", "call", "cast"):
                         judged = None
                     seq[p] = KINDS[kd]
                 if judged is not True:
